@@ -99,7 +99,7 @@ def run_job(mirs, job, tier, seed):
     if status == 'ok' and st.unknown: status, err = 'inconclusive', f'{st.unknown} solver queries returned unknown'
     return {'job': job.name, 'profile': job.profile, 'status': status, 'error': err, 'stats': st.as_dict(), 'wall_s': round(time.time() - t0, 2),
             'findings': findings, 'finding_counts': seen_roles, 'samples': samples,
-            'fns': {k: v for k, v in st.fns.items()}, 'models': dict(st.models)}
+            'fns': {k: v for k, v in st.fns.items()}, 'models': dict(st.models), 'xqueries': list(getattr(ex, 'xqueries', []))}
 
 
 def _short(c):
